@@ -25,9 +25,9 @@ def gen(rng, tier):
         k = rng.choice([2, 3, 3])
         gs.append(G.mk_cfg([rng.choice(pool) for _ in range(k)], 'S', extra_vars=['A']))
     for _ in range(250 if quick else 4000):
-        gs.append(G.random_cfg(rng, rng.randint(1, 4), rng.randint(1, 2), rng.randint(1, 7), maxlen=rng.choice([2, 3, 4])))
+        gs.append(G.random_cfg(rng, rng.randint(1, 4), rng.randint(1, 2), rng.randint(1, 7), maxlen=rng.choice([2, 3, 4]), varnames=rng.choice([None, None, ['S', 'A', 'AB', 'B', 'BB']])))
     for _ in range(300 if quick else 4000):
-        gs.append(G.random_cnf(rng, rng.randint(2, 5), 2, rng.randint(2, 9)))
+        gs.append(G.random_cnf(rng, rng.randint(2, 5), 2, rng.randint(2, 9), names=rng.choice([None, None, ['S', 'A', 'AB', 'B', 'BB'], ['S', 'X', 'XY', 'Y', 'YX']])))
     return [{'G': g, 'ws': ws} for g in gs]
 
 
